@@ -88,6 +88,16 @@ inductive Tok where
   | lpar                   -- Subexpression Start
   | rpar                   -- Subexpression Stop
   | other                  -- anything else the core ignores (operand subtype Error, …)
+  | fstart (name : Str)    -- Function / Start
+  | fstop                  -- Function / Stop
+  | argsep                 -- Argument
+  /-- Operand / Range inside a function call: the cells of the range (row-major; `[]` = the
+  reference does not resolve) and the lookahead `evalInfixExp` performs on the next token
+  (`nextToken.TType == Argument || Function`) -/
+  | rangeArg (cells : List Str) (nextArgOrFn : Bool)
+  /-- macro token (never produced by efp): a whole call `NAME(range, …, range)`; its step is the
+  composition of the micro steps of `fstart`, the `rangeArg`/`argsep` tokens and `fstop` -/
+  | call (name : Str) (args : List (List Str))
   deriving DecidableEq, Repr
 
 /-- `token.TValue` -/
@@ -95,6 +105,7 @@ def Tok.tvalue : Tok → Str
   | .num r => r | .text s => s | .logical r => r | .ref k => k
   | .infixOp s => s | .prefixOp s => s | .postfixOp s => s
   | .lpar => [] | .rpar => [] | .other => []
+  | .fstart n => n | .fstop => [] | .argsep => [44] | .rangeArg _ _ => [] | .call n _ => n
 
 def Tok.isPrefixMinus (t : Tok) : Bool := t == .prefixOp sMinus
 def Tok.isInfixMinus (t : Tok) : Bool := t == .infixOp sMinus
@@ -128,6 +139,7 @@ inductive MErr where
   | msg (e : EMsg)
   | invalidFormula         -- ErrInvalidFormula
   | panic                  -- nil interface type assertion on an empty stack
+  | unmodelled             -- a token sequence outside the modelled part of evalInfixExp
   deriving DecidableEq, Repr
 
 variable {N : Type} [NumOps N]
@@ -259,6 +271,10 @@ def calculate (opd : List (Arg N)) (opt : Tok) : Except MErr (List (Arg N)) := d
 
 /-- `getPriority` -/
 def getPriority (t : Tok) : Nat :=
+  match t with
+  | .fstart _ => 0   -- `if token.TType == efp.TokenTypeFunction { return }`
+  | .fstop => 0
+  | _ =>
   let pri := (lookup t.tvalue tokenPriority).getD 0
   let pri := if t.isPrefixMinus then prefixMinusPriority else pri
   if t = .lpar then beginParenPriority else pri
@@ -388,8 +404,8 @@ def closeParen : List Tok → List (Arg N) → Except MErr (State N)
       let opd' ← calculate opd t
       closeParen rest opd'
 
-/-- `parseToken` (the token stream outside function calls) -/
-def parseToken (env : Str → Option (CellArg N)) (tok : Tok) (st : State N) : Except MErr (State N) := do
+/-- `parseToken` (on one token, given operand and operator stacks) -/
+def parseTokenCore (env : Str → Option (CellArg N)) (tok : Tok) (st : State N) : Except MErr (State N) := do
   let (opd, opt) := st
   let tok ← (match tok with
     | .ref k => match env k with
@@ -405,6 +421,88 @@ def parseToken (env : Str → Option (CellArg N)) (tok : Tok) (st : State N) : E
     | _, o => o)
   let opd := if isOperand tok then tokenToArg tok :: opd else opd
   pure (opd, opt)
+
+/-! ### function calls: the in-function branch of `evalInfixExp` for calls that are not nested in
+another call and whose arguments are range references
+
+State of the function stacks while such a call is open: the function's name (opfStack /
+opftStack hold its start token, opfdStack is empty) and the argument list (argsStack top). -/
+
+def sInvalidRef : Str := [105, 110, 118, 97, 108, 105, 100, 32, 114, 101, 102, 101, 114, 101, 110, 99, 101]
+
+def aggOfName (n : Str) : Option AggFn :=
+  if n = [83, 85, 77] then some .sum
+  else if n = [65, 86, 69, 82, 65, 71, 69] then some .average
+  else if n = [67, 79, 85, 78, 84] then some .count
+  else if n = [67, 79, 85, 78, 84, 65] then some .counta
+  else if n = [77, 73, 78] then some .min
+  else if n = [77, 65, 88] then some .max
+  else if n = [80, 82, 79, 68, 85, 67, 84] then some .product
+  else none
+
+abbrev FState (N : Type) := State N × Option (Str × List (CellArg N))
+
+/-- the element `cellResolver` delivers for a cell of a range (`none` in env = never written) -/
+def cellOf (env : Str → Option (CellArg N)) (k : Str) : CellArg N := (env k).getD .empty
+
+/-- one iteration of the loop of `evalInfixExp` -/
+def stepF (env : Str → Option (CellArg N)) (t : Tok) (s : FState N) : Except MErr (FState N) :=
+  match s.2 with
+  | none =>
+    match t with
+    | .fstart name =>
+      -- parseToken on the outer stacks does nothing for a function token; then
+      -- opfStack.Push, argsStack.Push(list.New()), opftStack.Push
+      if name = [65, 82, 82, 65, 89] ∨ name = [65, 82, 82, 65, 89, 82, 79, 87] then .error .unmodelled
+      else pure (s.1, some (name, []))
+    | .fstop => pure s           -- "array constant out of function stack" branch: flags only
+    | .argsep => pure s
+    | .rangeArg _ _ => .error .unmodelled
+    | .call _ _ => .error .unmodelled
+    | t => do let st' ← parseTokenCore env t s.1; pure (st', none)
+  | some (name, args) =>
+    match t with
+    | .rangeArg cells true =>
+      -- opftStack.Peek() == opfStack.Peek(), next token is an argument separator or the stop:
+      -- parseReference, argsStack.Peek().PushBack(result)
+      if cells = [] then .error (.msg (.lit sInvalidRef))
+      else pure (s.1, some (name, args ++ cells.map (cellOf env)))
+    | .argsep => pure s          -- nothing pending on opftStack / opfdStack
+    | .fstop =>
+      -- evalInfixExpFunc: call the function; an error result aborts, otherwise pop the function
+      -- stacks and push the result on opdStack
+      match aggOfName name with
+      | none => .error .unmodelled
+      | some fn =>
+        match aggregate fn args with
+        | .ok v => pure ((v :: s.1.1, s.1.2), none)
+        | .error e => .error e
+    | _ => .error .unmodelled
+
+def runF (env : Str → Option (CellArg N)) : List Tok → FState N → Except MErr (FState N)
+  | [], s => pure s
+  | t :: ts, s => do
+    let s' ← stepF env t s
+    runF env ts s'
+
+/-- the micro tokens of a call -/
+def expandArgs : List (List Str) → List Tok
+  | [] => []
+  | [a] => [.rangeArg a true]
+  | a :: b :: rest => .rangeArg a true :: .argsep :: expandArgs (b :: rest)
+
+def expandCall (name : Str) (args : List (List Str)) : List Tok :=
+  .fstart name :: (expandArgs args ++ [.fstop])
+
+/-- `parseToken` extended by the macro token `call`: run its micro tokens -/
+def parseToken (env : Str → Option (CellArg N)) (tok : Tok) (st : State N) : Except MErr (State N) :=
+  match tok with
+  | .call name args =>
+    match runF env (expandCall name args) (st, none) with
+    | .ok (st', none) => .ok st'
+    | .ok (_, some _) => .error .unmodelled
+    | .error e => .error e
+  | t => parseTokenCore env t st
 
 def run (env : Str → Option (CellArg N)) : List Tok → State N → Except MErr (State N)
   | [], st => pure st
@@ -423,6 +521,20 @@ def flush : List Tok → List (Arg N) → Except MErr (List (Arg N))
 def evalTokens (env : Str → Option (CellArg N)) (ts : List Tok) : Except MErr (Arg N) := do
   let (opd, opt) ← run env ts ([], [])
   let opd ← flush opt opd
+  match opd with
+  | [] => .error .invalidFormula
+  | v :: _ => pure v
+
+/-- replace every macro token by its micro tokens: the stream efp produces -/
+def flatten : List Tok → List Tok
+  | [] => []
+  | .call n a :: rest => expandCall n a ++ flatten rest
+  | t :: rest => t :: flatten rest
+
+/-- `evalInfixExp` on the real (flat) token stream -/
+def evalTokensF (env : Str → Option (CellArg N)) (ts : List Tok) : Except MErr (Arg N) := do
+  let s ← runF env ts (([], []), none)
+  let opd ← flush s.1.2 s.1.1
   match opd with
   | [] => .error .invalidFormula
   | v :: _ => pure v
@@ -454,6 +566,8 @@ inductive Expr where
   | pct (e : Expr)
   | bin (op : Op) (l r : Expr)
   | paren (e : Expr)
+  /-- `NAME(range, …, range)`: each argument is the list of cells of the range -/
+  | call (name : Str) (args : List (List Str))
   deriving Repr
 
 def Expr.level : Expr → Nat
@@ -475,6 +589,7 @@ def render (p : Nat) : Expr → List Tok
   | .pct e => wrap (decide (7 < p)) (render 7 e ++ [.postfixOp [37]])
   | .bin op l r => wrap (decide (op.level < p)) (render op.level l ++ .infixOp op.sym :: render (op.level + 1) r)
   | .paren e => .lpar :: (render 1 e ++ [.rpar])
+  | .call n a => [.call n a]
 
 namespace Impl
 variable {N : Type} [NumOps N]
@@ -521,6 +636,22 @@ def applyBin (op : Op) (l r : Arg N) : Except MErr (Arg N) :=
       | .ge => ord (· != .lt)
       | _ => .error .panic
 
+/-- value of a call `NAME(range, …)` whose arguments are ranges: the first argument that does not
+resolve aborts with "invalid reference"; otherwise the aggregate over all cells -/
+def callArgs (env : Str → Option (CellArg N)) : List (List Str) → List (CellArg N) → Except MErr (List (CellArg N))
+  | [], acc => pure acc
+  | a :: rest, acc => if a = [] then .error (.msg (.lit sInvalidRef)) else callArgs env rest (acc ++ a.map (cellOf env))
+
+def callValue (env : Str → Option (CellArg N)) (name : Str) (args : List (List Str)) : Except MErr (Arg N) :=
+  if name = [65, 82, 82, 65, 89] ∨ name = [65, 82, 82, 65, 89, 82, 79, 87] then .error .unmodelled
+  else
+    match callArgs env args [] with
+    | .error e => .error e
+    | .ok cells =>
+      match aggOfName name with
+      | none => .error .unmodelled
+      | some fn => aggregate fn cells
+
 def negate (a : Arg N) : Arg N := mkNum (sub zero (toNumberField a))
 def percent (a : Arg N) : Arg N := mkNum (div (numberField a) (ofNat percentDivisor))
 
@@ -541,6 +672,7 @@ def evalTree (env : Str → Option (CellArg N)) : Expr → Except MErr (Arg N)
     let b ← evalTree env r
     applyBin op a b
   | .paren e => evalTree env e
+  | .call n a => callValue env n a
 
 end Impl
 
@@ -651,22 +783,6 @@ def binop (op : Op) (a b : Val N) : Val N :=
 def neg (a : Val N) : Val N := ofExcept (do let x ← toNum a; pure (mkNum (sub zero x)))
 def pct (a : Val N) : Val N := ofExcept (do let x ← toNum a; pure (mkNum (div x (ofNat 100))))
 
-/-- reference evaluator on the tree; `env` gives the current content of the referenced cells -/
-def eval (env : Str → Option (Val N)) : Expr → Val N
-  | .num raw => match parse raw with
-    | some x => .num x
-    | none => .err .value
-  | .text s => .text s
-  | .logical raw => .bool (upper raw = sTRUE)
-  | .ref k => match env k with
-    | some v => v
-    | none => .err .name
-  | .neg e => neg (eval env e)
-  | .pct e => pct (eval env e)
-  | .bin op l r => binop op (eval env l) (eval env r)
-  | .paren e => eval env e
-
-
 /-! ### aggregates: Excel's folds over the cells of range arguments -/
 
 /-- the numbers among the referenced cells (text, booleans and blanks inside a range are ignored) -/
@@ -713,6 +829,27 @@ def aggregate (fn : Impl.AggFn) (cells : List (Val N)) : Val N :=
         | [] => .num zero
         | _ => mkNum (ns.foldl mul one)
       | _ => .num zero
+
+/-- reference evaluator on the tree; `env` gives the current content of the referenced cells -/
+def eval (env : Str → Option (Val N)) : Expr → Val N
+  | .num raw => match parse raw with
+    | some x => .num x
+    | none => .err .value
+  | .text s => .text s
+  | .logical raw => .bool (upper raw = sTRUE)
+  | .ref k => match env k with
+    | some v => v
+    | none => .err .name
+  | .neg e => neg (eval env e)
+  | .pct e => pct (eval env e)
+  | .bin op l r => binop op (eval env l) (eval env r)
+  | .paren e => eval env e
+  | .call n a =>
+    if a.any (· == []) then .err .name
+    else match Impl.aggOfName n with
+      | none => .err .name
+      | some fn => aggregate fn (a.flatten.map fun k => (env k).getD .blank)
+
 
 /-- a formula whose value is a blank reference shows 0 -/
 def top : Val N → Val N
